@@ -54,6 +54,7 @@ EXPLANATION = (
     "services; fast scan: probe order and constants (bit check 128 first, bits 31..0, LSSNext = (sub + 1) mod 4 "
     "evaluated for sub = 0..3, bit set exactly when unanswered, success returns the four accumulated words); R7 structural assumptions shared by all properties: no class-level mutable object is mutated in place by instances, no method re-runs the constructor, logging statements cannot raise (typed eager formatting, divisions), no mutable default argument is kept or mutated, no new truth-value test of a None-able number."
     ' R4 also: every LSS response specifier of CiA 305 passes any early exit of on_message_received.'
+    ' R3 also: the delegating methods do not re-bind their parameters.'
 )
 ASSUMPTIONS = [
     "not decided: the 128-bit search result against a slave model, timing (sleep) requirements of slaves",
